@@ -227,6 +227,19 @@ def bnSqrComba (cfg : Cfg) (a : Bn) : Option Bn := do
   grow cfg (2 * a.used)
   return bnTrim { neg := false, dp := sqrnLow cfg.B a.dp a.used }
 
+/-- bn_sqr_basic: row-wise bn_sqra_low accumulation into a zeroed temporary of 2*used digits -/
+def bnSqrBasic (cfg : Cfg) (a : Bn) : Option Bn := do
+  grow cfg (2 * a.used)
+  let n := a.used
+  let t0 : List Nat := List.replicate (2 * n + 1) 0
+  let step := fun (t : List Nat) (i : Nat) =>
+    let (seg, carry) := sqraLow cfg.B ((t.drop (2 * i)).take (n - i + 1)) (a.dp.drop i) (n - i)
+    let t := splice t (2 * i) seg
+    -- t->dp[a->used + i + 1] = carry  (not for the last row, whose return value is dropped)
+    if i + 1 < n then t.set (n + i + 1) carry else t
+  let t := (List.range n).foldl step t0
+  return bnTrim { neg := false, dp := t.take (2 * n) }
+
 /-- bn_sqr_karat with BN_KARAT = 0 -/
 def bnSqrKarat (cfg : Cfg) (a : Bn) : Option Bn := do
   let h := a.used / 2
